@@ -88,6 +88,11 @@ type c05In struct {
 	// at the deadline is still delivered is the scheduler's choice: it is recorded per round and
 	// enters the Coq case as that provider's abstract time (1 = before the deadline 2, 2 = at it).
 	Race *c05Race `json:"race,omitempty"`
+	// Session: class session. That many calls are made one after the other on ONE Preconfirmation
+	// and one signer in one process (whatever the signer package keeps between calls is kept);
+	// call r (1-based) uses decay start DS + r - 1, and a provider of kind replay-sig answers call r
+	// with the signature it made in call 1 (Var = r - 1).
+	Session int `json:"session,omitempty"`
 }
 
 type c05Race struct {
@@ -99,7 +104,7 @@ var c05Kinds = []struct {
 	vars int
 }{
 	{"honest", 1}, {"honest-spoofprov", 3}, {"otherbid-fields", 5}, {"otherbid-otherkey", 2},
-	{"samefields-resigned", 1}, {"samebid-vrespelled", 1}, {"samebid-unknown", 1}, {"outer-unknown", 1},
+	{"samefields-resigned", 1}, {"samebid-vrespelled", 1}, {"samebid-amtrespelled", 2}, {"replay-sig", 3}, {"samebid-unknown", 1}, {"outer-unknown", 1},
 	{"foreign-key", 1}, {"tamper", 8}, {"shortsig", 6}, {"nilparts", 4}, {"garbage", 4},
 	{"errframe", 1}, {"silence", 1}, {"reset", 1}, {"eof", 1}, {"twoframes", 4},
 	{"newstream-err", 1}, {"write-err", 1}, {"replay-peer", 1},
@@ -271,6 +276,30 @@ func c05Prepare(in c05In) *c05Prep {
 					b.Signature[64] -= 27
 				}
 				frames(commit(own, b))
+			case "samebid-amtrespelled":
+				// the same amount spelled differently: same digest, same signature, another field value
+				b := c05CloneBid(base)
+				a := strings.TrimPrefix(b.BidAmount, "+")
+				if pin.Var%2 == 0 {
+					b.BidAmount = "0" + a
+				} else {
+					b.BidAmount = "+0" + a
+				}
+				frames(commit(own, b))
+			case "replay-sig":
+				// a self-consistent commitment over the bid sent (right digest) that carries the
+				// signature this provider made earlier in the session, over the bid whose decay start
+				// was Var lower (Var = 0: the honest commitment)
+				c := honestOf(i)
+				if pin.Var > 0 {
+					pb, err := pr.bidder.ConstructSignedBid(base.TxHash, base.BidAmount, base.BlockNumber,
+						base.DecayStartTimestamp-int64(pin.Var), base.DecayEndTimestamp)
+					if err != nil {
+						panic(err)
+					}
+					c.Signature = commit(own, pb).Signature
+				}
+				frames(c)
 			case "samebid-unknown":
 				c := honestOf(i)
 				c.Bid.ProtoReflect().SetUnknown(protowire.AppendVarint(protowire.AppendTag(nil, 100, protowire.VarintType), 7))
@@ -538,7 +567,10 @@ type c05Obs struct {
 	Note      string       `json:"note,omitempty"`
 	// class reply-at-deadline: the distinct outcomes seen over the rounds (each a full observation
 	// of one round); Late = indices of the peers whose reply was not delivered in that outcome
-	Variants []c05Obs `json:"variants,omitempty"`
+	// Inconclusive: the run says nothing about SendBid (slow machine, environment); the case is
+	// emitted for the statistics and ignored by the comparison
+	Inconclusive string   `json:"inconclusive,omitempty"`
+	Variants     []c05Obs `json:"variants,omitempty"`
 	Late     []int    `json:"late,omitempty"`
 	Rounds   int      `json:"rounds,omitempty"`
 }
@@ -560,10 +592,73 @@ func c05WaitCount(want int, limit time.Duration) bool {
 	}
 }
 
+// one node kept over the calls of a session
+type c05SwapStreamer struct {
+	mu  sync.Mutex
+	cur p2p.Streamer
+}
+
+func (w *c05SwapStreamer) NewStream(ctx context.Context, pe p2p.Peer, h p2p.Header, d p2p.StreamDesc) (p2p.Stream, error) {
+	w.mu.Lock()
+	cur := w.cur
+	w.mu.Unlock()
+	return cur.NewStream(ctx, pe, h, d)
+}
+
+type c05SessionEnv struct {
+	swap *c05SwapStreamer
+	ws   *c05Signer
+	svc  *preconfirmation.Preconfirmation
+}
+
+// the input of call r of a session
+func c05SessionRound(in c05In, r int) c05In {
+	out := in
+	out.Session = 0
+	out.DS = in.DS + int64(r-1)
+	out.Peers = append([]c05PeerIn(nil), in.Peers...)
+	for k := range out.Peers {
+		if out.Peers[k].Kind == "replay-sig" {
+			out.Peers[k].Var = r - 1
+		}
+	}
+	return out
+}
+
+func c05RunSession(in c05In, slow int) (obs c05Obs) {
+	obs.Closed = -1
+	logger := slog.New(slog.NewTextHandler(io.Discard, nil))
+	pr := c05Prepare(c05SessionRound(in, 1))
+	topo := topology.New(nil, logger)
+	for _, pp := range pr.peers {
+		topo.Connected(p2p.Peer{EthAddress: pp.addr, Type: pp.typ})
+	}
+	env := &c05SessionEnv{swap: &c05SwapStreamer{}, ws: &c05Signer{Signer: pr.bidder}}
+	env.svc = preconfirmation.New(topo, env.swap, env.ws, nil, nil, nil, logger)
+	for r := 1; r <= in.Session; r++ {
+		ro := c05RunCaseOn(env, c05SessionRound(in, r), slow)
+		obs.Rounds = r
+		obs.Variants = append(obs.Variants, ro)
+		if ro.Ret != 0 {
+			obs.Ret, obs.Note = ro.Ret, fmt.Sprintf("call %d of the session: %s", r, ro.Note)
+			return obs
+		}
+	}
+	obs.Closed, obs.GorBack = 2, true
+	return obs
+}
+
 func c05RunCase(in c05In, slow int) (obs c05Obs) {
 	if in.Race != nil {
 		return c05RunRace(in, slow)
 	}
+	if in.Session > 0 {
+		return c05RunSession(in, slow)
+	}
+	return c05RunCaseOn(nil, in, slow)
+}
+
+func c05RunCaseOn(env *c05SessionEnv, in c05In, slow int) (obs c05Obs) {
 	obs.Closed = -1
 	limit := time.Duration(slow) * 5 * time.Second
 	pr := c05Prepare(in)
@@ -576,6 +671,15 @@ func c05RunCase(in c05In, slow int) (obs c05Obs) {
 	}
 	ws := &c05Signer{Signer: pr.bidder}
 	svc := preconfirmation.New(topo, st, ws, nil, nil, nil, logger)
+	firstCall := 0
+	if env != nil {
+		// the session's node: same Preconfirmation, same signer; only the scripted streams are new
+		env.swap.mu.Lock()
+		env.swap.cur = st
+		env.swap.mu.Unlock()
+		ws, svc = env.ws, env.svc
+		firstCall = len(ws.calls)
+	}
 	ctx, cancel := context.WithCancel(context.Background())
 	defer cancel()
 	if in.Deadline <= 0 {
@@ -595,7 +699,7 @@ func c05RunCase(in c05In, slow int) (obs c05Obs) {
 		ch, err = svc.SendBid(ctx, in.Tx, in.Amt, in.BN, in.DS, in.DE)
 	}()
 	collect := func() {
-		obs.Csb = ws.calls
+		obs.Csb = append([]c05CsbCall(nil), ws.calls[firstCall:]...)
 		for _, pp := range pr.peers {
 			fp := st.peers[pp.addr]
 			fp.mu.Lock()
@@ -889,7 +993,7 @@ func c05RunRace(in c05In, slow int) (obs c05Obs) {
 // ---------------------------------------------------------------------------------------------
 
 // kinds that can be scripted through a real provider-side handler
-var c05RealKinds = []string{"honest", "honest-spoofprov", "otherbid-fields", "samebid-vrespelled", "foreign-key",
+var c05RealKinds = []string{"honest", "honest-spoofprov", "otherbid-fields", "samebid-vrespelled", "samebid-amtrespelled", "foreign-key",
 	"tamper", "shortsig", "nilparts", "garbage", "errframe", "silence", "reset", "eof", "twoframes", "newstream-err"}
 
 type c05Registry struct{}
@@ -968,9 +1072,11 @@ func c05RunReal(in c05In, slow int) (obs c05Obs, skip string) {
 	logger := slog.New(slog.NewTextHandler(io.Discard, nil))
 	deadline := time.Duration(slow) * 1200 * time.Millisecond
 	lateAfter := deadline + time.Duration(slow)*400*time.Millisecond
-	window := deadline + time.Duration(slow)*3*time.Second
+	window := deadline + time.Duration(slow)*6*time.Second
 
 	var closers []io.Closer
+	var actMu sync.Mutex
+	var acted []time.Time // when the handlers of the in-time providers had the bid and acted
 	lateRel, endRel := make(chan struct{}), make(chan struct{})
 	defer func() {
 		close(endRel)
@@ -1038,6 +1144,11 @@ func c05RunReal(in c05In, slow int) (obs c05Obs, skip string) {
 				if err := st.ReadMsg(ctx, bid); err != nil {
 					return nil
 				}
+				if !late {
+					actMu.Lock()
+					acted = append(acted, time.Now())
+					actMu.Unlock()
+				}
 				if late {
 					select {
 					case <-lateRel:
@@ -1093,6 +1204,12 @@ func c05RunReal(in c05In, slow int) (obs c05Obs, skip string) {
 		time.Sleep(5 * time.Millisecond)
 	}
 
+	allInTime := true
+	for _, pp := range pr.peers {
+		if pp.in.Time >= in.Deadline || pp.mode == c05ModeSilence {
+			allInTime = false
+		}
+	}
 	rec := &c05RecStreamer{inner: bidderSvc}
 	ws := &c05Signer{Signer: pr.bidder}
 	svc := preconfirmation.New(topo, rec, ws, nil, nil, nil, logger)
@@ -1159,28 +1276,39 @@ func c05RunReal(in c05In, slow int) (obs c05Obs, skip string) {
 	for {
 		select {
 		case c, ok := <-ch:
-			el := time.Since(t0)
+			expired := ctx.Err() != nil
 			if !ok {
-				// closed clearly before the deadline = when the last answer came (abstract time 1);
-				// otherwise it was the deadline that ended the call
-				if el < deadline/2 {
-					obs.Closed = 1
-				} else {
-					obs.Closed = in.Deadline
-				}
 				obs.GorBack = true
 				if lateOpen() {
 					// the class assumes streams are opened long before the deadline; a run in which
 					// the deadline overtook NewStream maps to no abstract schedule
 					return obs, "the deadline passed before a stream was open"
 				}
+				actMu.Lock()
+				for _, at := range acted {
+					if at.Sub(t0) > deadline/4 {
+						actMu.Unlock()
+						return obs, "a provider that answers in time had the bid only late: slow machine"
+					}
+				}
+				actMu.Unlock()
+				switch {
+				case !expired:
+					obs.Closed = 1 // closed while the context was alive: when the last answer came
+				case allInTime:
+					// every provider answers in time, yet the close was seen only after the deadline:
+					// in-time close noticed late, or answers that lost against the deadline on a slow
+					// machine -- no abstract schedule can be read off
+					return obs, "close of an all-in-time case seen only after the deadline: slow machine"
+				default:
+					obs.Closed = in.Deadline
+				}
 				return obs, ""
 			}
-			step := 1
-			if el >= deadline {
-				step = in.Deadline + 1
+			if expired {
+				return obs, "a delivery was received after the deadline had passed (final select or slow machine)"
 			}
-			obs.Delivered = append(obs.Delivered, c05Deliv{Step: step, Msg: c05Marshal(c)})
+			obs.Delivered = append(obs.Delivered, c05Deliv{Step: 1, Msg: c05Marshal(c)})
 		case <-lateC:
 			close(lateRel)
 			lateC = nil
@@ -1325,11 +1453,14 @@ func c05RunAll(t *testing.T, dir string, ins []c05In, slow int) []c05Obs {
 			if len(note) > 300 {
 				note = note[:300]
 			}
-			ret := 2
-			if timedOut {
-				ret = 3
+			if strings.Contains(string(outb), "panic:") {
+				out[started] = c05Obs{Ret: 2, Closed: -1, Note: note}
+			} else {
+				// killed, timed out as a whole (every wait inside a case has its own limit and
+				// reports Ret 3 itself) or died without a Go panic: the environment, not SendBid
+				out[started] = c05Obs{Closed: -1, Note: note,
+					Inconclusive: fmt.Sprintf("child process ended without a result (timed out: %v)", timedOut)}
 			}
-			out[started] = c05Obs{Ret: ret, Closed: -1, Note: note}
 			done = started
 		} else if done < from {
 			t.Fatalf("c05: child made no progress from case %d: %v\n%s", from, runErr, outb)
@@ -1347,6 +1478,7 @@ func c05RunAllReal(t *testing.T, dir string, ins []c05In, slow int) ([]c05Obs, [
 	out := make([]c05Obs, len(ins))
 	ok := make([]bool, len(ins))
 	have := make([]bool, len(ins))
+	skipped := make([]string, len(ins))
 	if len(ins) == 0 {
 		return out, ok
 	}
@@ -1384,21 +1516,24 @@ func c05RunAllReal(t *testing.T, dir string, ins []c05In, slow int) ([]c05Obs, [
 					continue
 				}
 				if l.Obs != nil {
-					out[l.I], ok[l.I], have[l.I] = *l.Obs, true, true
+					out[l.I], have[l.I] = *l.Obs, true
 				} else if l.Skip != "" {
-					t.Logf("c05 real-stream case %d not run: %s", l.I, l.Skip)
-					have[l.I] = true
+					skipped[l.I] = l.Skip
 				}
 			}
 			f.Close()
 		}
 		return timedOut, string(outb)
 	}
+	// all cases side by side; whatever is inconclusive or missing after that is run once more on its
+	// own (one case per process: less contention)
 	run(-1)
 	for i := range ins {
+		ok[i] = true
 		if have[i] {
 			continue
 		}
+		skipped[i] = ""
 		timedOut, output := run(i)
 		if have[i] {
 			continue
@@ -1410,11 +1545,18 @@ func c05RunAllReal(t *testing.T, dir string, ins []c05In, slow int) ([]c05Obs, [
 		if len(note) > 300 {
 			note = note[:300]
 		}
-		ret := 2
-		if timedOut {
-			ret = 3
+		switch {
+		case skipped[i] != "":
+			out[i] = c05Obs{Closed: -1, Inconclusive: skipped[i]}
+		case strings.Contains(output, "panic:"):
+			out[i] = c05Obs{Ret: 2, Closed: -1, Note: note} // the process died in a Go panic: the code under test
+		default:
+			// every wait inside a case has its own limit (and then reports Ret 3 itself): a process
+			// that was killed or ended without a result is the environment
+			out[i] = c05Obs{Closed: -1, Note: note,
+				Inconclusive: fmt.Sprintf("child process ended without a result (timed out: %v)", timedOut)}
 		}
-		out[i], ok[i], have[i] = c05Obs{Ret: ret, Closed: -1, Note: note}, true, true
+		have[i] = true
 	}
 	return out, ok
 }
@@ -1596,7 +1738,8 @@ func c05CoqCase(id int, in c05In, obs c05Obs) string {
 		dl = 0
 	}
 	term := coqRecord("id", coqN(uint64(id)), "args", args, "csb", coqList(csb), "vtbl", coqList(vtbl),
-		"view", coqList(view), "deadline", coqN(uint64(dl)), "on_real", coqBool(in.Real), "o_ret", coqN(uint64(obs.Ret)),
+		"view", coqList(view), "deadline", coqN(uint64(dl)), "on_real", coqBool(in.Real),
+		"inconclusive", coqBool(obs.Inconclusive != ""), "o_ret", coqN(uint64(obs.Ret)),
 		"o_contacted", coqList(contacted), "o_delivered", coqList(delivered),
 		"o_closed", coqOpt(obs.Closed >= 0, coqN(uint64(max(obs.Closed, 0)))))
 	return c05Share(term)
@@ -1648,7 +1791,8 @@ func (g *c05Gen) randKind() (string, int) {
 	case w < 22:
 		return "honest", 0
 	case w < 34:
-		k := []string{"otherbid-fields", "otherbid-otherkey", "samefields-resigned", "samebid-vrespelled", "samebid-unknown"}[g.r.Intn(5)]
+		k := []string{"otherbid-fields", "otherbid-otherkey", "samefields-resigned", "samebid-vrespelled", "samebid-unknown",
+			"samebid-amtrespelled", "replay-sig"}[g.r.Intn(7)]
 		return k, g.r.Intn(8)
 	default:
 		k := c05Kinds[g.r.Intn(len(c05Kinds))]
@@ -1688,6 +1832,17 @@ func TestVerifC05(t *testing.T) {
 				seen[k] = true
 				g.keys = append(g.keys, k)
 			}
+		}
+		// sessions: several calls on one node; a provider replays its first signature on later,
+		// self-consistent commitments.  Emitted first (see the emission of sessions below).
+		for k, ks := range [][]string{{"replay-sig"}, {"honest", "replay-sig", "samebid-amtrespelled"}} {
+			in := g.base()
+			in.Tx = fmt.Sprintf("session-%d-%d", e.Seed, k)
+			for j, kind := range ks {
+				in.Peers = append(in.Peers, g.peer(j, "provider", kind, 0, 1))
+			}
+			in.Deadline, in.Session = 2, 3
+			add("session", in)
 		}
 		// every reply class alone: answer before the deadline, at the deadline, expired context
 		for _, k := range c05Kinds {
@@ -1831,6 +1986,21 @@ func TestVerifC05(t *testing.T) {
 			continue
 		}
 		in, o := items[i].in, obs[i]
+		if o.Inconclusive != "" {
+			t.Logf("c05: %s case inconclusive: %s", items[i].class, o.Inconclusive)
+			e.Emit("inconclusive:"+strings.SplitN(items[i].class, ":", 2)[0], in, o, func(id int) string { return c05CoqCase(id, in, o) })
+			continue
+		}
+		if in.Session > 0 && o.Ret == 0 {
+			// one case per call, the LAST call first: the parent asks the real signer about the
+			// replayed signature before it has ever verified the commitment it was taken from
+			for r := len(o.Variants); r >= 1; r-- {
+				v, inR := o.Variants[r-1], c05SessionRound(in, r)
+				v.Rounds = r
+				e.Emit(items[i].class, in, v, func(id int) string { return c05CoqCase(id, inR, v) })
+			}
+			continue
+		}
 		if in.Race != nil && o.Ret == 0 {
 			// one case per distinct outcome of the rounds; the recorded choice of the scheduler
 			// (which replies were still delivered) fixes the abstract times
